@@ -9,7 +9,7 @@ import os
 import random
 import sys
 import time
-from asyncio import Future, ensure_future, iscoroutine, sleep
+from asyncio import Future, ensure_future, gather, iscoroutine, sleep
 from binascii import hexlify, unhexlify
 from collections import Counter, defaultdict
 from struct import pack
@@ -250,18 +250,22 @@ class TunnelCommunity(Community):
         """
         Remove all circuits/relays/exitsockets.
         """
-        for circuit_id in list(self.circuits.keys()):
-            self.remove_circuit(circuit_id, "unload", remove_now=True, destroy=DESTROY_REASON_SHUTDOWN)
-        for circuit_id in list(self.relay_from_to.keys()):
-            self.remove_relay(circuit_id, "unload", remove_now=True, destroy=DESTROY_REASON_SHUTDOWN)
-        for circuit_id in list(self.exit_sockets.keys()):
-            self.remove_exit_socket(circuit_id, "unload", remove_now=True, destroy=DESTROY_REASON_SHUTDOWN)
-
-        await self.request_cache.shutdown()
-
         # The crypto endpoint registered itself as a listener on our behalf: it has to go as well.
+        # Stop listening first, so no new circuits/exit sockets appear while the existing ones are removed.
         if hasattr(self, "crypto_endpoint"):
             self.crypto_endpoint.teardown_tunnels()
+
+        removals = [self.remove_circuit(circuit_id, "unload", remove_now=True, destroy=DESTROY_REASON_SHUTDOWN)
+                    for circuit_id in list(self.circuits.keys())]
+        removals += [self.remove_relay(circuit_id, "unload", remove_now=True, destroy=DESTROY_REASON_SHUTDOWN)
+                     for circuit_id in list(self.relay_from_to.keys())]
+        removals += [self.remove_exit_socket(circuit_id, "unload", remove_now=True, destroy=DESTROY_REASON_SHUTDOWN)
+                     for circuit_id in list(self.exit_sockets.keys())]
+        # Wait for the removals (which close the exit sockets): the task manager shutdown would cancel them.
+        if removals:
+            await gather(*removals, return_exceptions=True)
+
+        await self.request_cache.shutdown()
 
         await super().unload()
 
